@@ -121,7 +121,9 @@ def rand_tempo(rng: random.Random, prof: Profile, res: int):
 
 WORDS = ["solo", "soloend", "x", "a_b", "[idle]", "E", "N", "=", "k=v", "é", "日本", "a\tb", "7", "S2", "\"q\"", "e\u0301", "\u212b", "\u2126x", "100%", "%s", "{0}", "//", "x//", "see:http://example.org/x", "a//b//c", "#c", "\\\\x", "\u201cq\u201d",
          # invisible characters, closing braces and signs are ordinary word characters
-         "a\u200db", "\u200c", "x\u200e", "\ufeffq", "solo}", "}", "{x}", "+1", "-", "a=b", "1_0"]
+         "a\u200db", "\u200c", "x\u200e", "\ufeffq", "solo}", "}", "{x}", "+1", "-", "a=b", "1_0",
+         # words made of digits are words: leading zeros and other digit scripts stay as written
+         "007", "00", "0", "\u0663\u0664", "\uff11\uff12", "0x10", "1e3", "1.0", "١٠"]
 TEXT_ATOMS = ["lyric", "section", "lyric ", "section ", "Lyric ", "SECTION ", "Section ", "LYRIC ", "ſection ", " ", "  ", "\"", "=", "[", "]", "{", "}", "la", "Intro", "1", "é",
               "日本", "\t", "E", "phrase_start", "a", "-", "'", "\\", "\xa0", "N 0 0",
               # text that is not in a Unicode normal form (decomposed accents, singleton code points, compatibility forms): verbatim means verbatim
@@ -314,7 +316,7 @@ def pad(rng: random.Random, prof: Profile, default="  ") -> str:
 
 # unparsable lines per section kind — decided from the documented line formats (never by the code under test):
 # nothing here is a canonical line of the section it is inserted into
-GARBAGE_COMMON = ["  }", "} ", "\t{", " { ", "  {", "garbage", "0 = X 1", "= N 0 0", "0 N 0 0", "{x", "x}", "  ", "", "0 = E", "0 = n 0 0", "-1 = N 0 0", "Resolution = x",
+GARBAGE_COMMON = ["  }", "} ", "\t{", " { ", "  {", "garbage", "[solo]", "[ExpertSingle]", "[Song]", "[x y]", "0 = X 1", "= N 0 0", "0 N 0 0", "{x", "x}", "  ", "", "0 = E", "0 = n 0 0", "-1 = N 0 0", "Resolution = x",
                   "0 = E two words", "0 = B", "0 = TS", "0 = A x", "0 = N 0", "0 = S 2", "0 = B 12a", "0  = N 0 0", "0 = N  0 0"]
 GARBAGE = {
     "instrument": GARBAGE_COMMON + ["0 = S 64 10", "0 = N 8 0", "0 = S 0 5", "0 = N 10 0", "0 = S 2 5 5", "0 = B 120000", "0 = TS 4", "0 = A 5",
@@ -347,6 +349,10 @@ def body_lines_track(rng, prof, tr: TrackSrc):
             rng.shuffle(ls)
             for l, ln in ls:
                 blk.append((g.tick, l, ln))
+            if ls and rng.random() < getattr(prof, "dup_lanes", 0.05):
+                # a lane written twice at one tick, with the same length, is still that one lane with that length
+                for l, ln in rng.sample(ls, rng.choice([1, 1, len(ls)])):
+                    blk.insert(rng.randint(0, len(blk)), (g.tick, l, ln))
         flags = []
         # flag lines may carry any length: it never contributes (C03)
         if g.forced:
